@@ -178,6 +178,9 @@ class AllOverlaps(Sub):
     distinct_by_construction = True
     rule = "every enumerated overlap of every zone: the first and the second occurrence of a repeated wall time through all 8 operations (quick: every 6th overlap, rotating with the seed)"
 
+    def describe(self, case):
+        return {"value": T.render(case["u"], case["zone"]).isoformat()}
+
     def exhaustive(self, tier):
         return tier == "thorough"
 
